@@ -792,7 +792,8 @@ func (fv *funcVerifier) evalSlice(st *State, x *ast.SliceExpr) smt.Term {
 			lo := ev(x.Low, smt.IntLit(0))
 			hi := ev(x.High, n)
 			fv.sliceBounds(st, x, lo, hi, hi, n, false)
-			if !fv.c.Has("str_sub") {
+			if !fv.c.Has("str_sub_at_declared") {
+				fv.c.DeclareFun("str_sub_at_declared", nil, smt.Bool)
 				fv.c.DeclareFun("str_sub", []string{StrSort, smt.Int, smt.Int}, StrSort)
 				ss, lo2, hi2, k := smt.Term{S: "ss_s", Sort: StrSort}, smt.Term{S: "ss_lo", Sort: smt.Int}, smt.Term{S: "ss_hi", Sort: smt.Int}, smt.Term{S: "ss_k", Sort: smt.Int}
 				sub := smt.App(StrSort, "str_sub", ss, lo2, hi2)
@@ -1485,10 +1486,26 @@ func (fv *funcVerifier) isNil(v smt.Term, t types.Type) smt.Term {
 }
 
 func (fv *funcVerifier) strConcat(st *State, l, r smt.Term) smt.Term {
-	fv.c.DeclareFun("str_cat", []string{StrSort, StrSort}, StrSort)
+	fv.declareStrCat()
 	v := fv.c.Let("cat", smt.App(StrSort, "str_cat", l, r))
 	fv.assume(st, smt.Eq(smt.App(smt.Int, "str_len", v), smt.Add(smt.App(smt.Int, "str_len", l), smt.App(smt.Int, "str_len", r))))
 	return v
+}
+
+// declareStrCat declares concatenation with the one fact that relates it to slicing: the part of
+// a + b after the first len(a) bytes is b.
+func (fv *funcVerifier) declareStrCat() {
+	if fv.c.Has("str_cat") {
+		return
+	}
+	fv.c.DeclareFun("str_cat", []string{StrSort, StrSort}, StrSort)
+	fv.c.DeclareFun("str_sub", []string{StrSort, smt.Int, smt.Int}, StrSort)
+	a, b := smt.Term{S: "sc_a", Sort: StrSort}, smt.Term{S: "sc_b", Sort: StrSort}
+	cat := smt.App(StrSort, "str_cat", a, b)
+	ln := func(x smt.Term) smt.Term { return smt.App(smt.Int, "str_len", x) }
+	fv.c.Axiom("str_cat_suffix", smt.Forall([]smt.Term{a, b},
+		smt.And(smt.Eq(ln(cat), smt.Add(ln(a), ln(b))),
+			smt.Eq(smt.App(StrSort, "str_sub", cat, ln(a), ln(cat)), b)), cat), "str_cat")
 }
 
 // declareStrLt declares the string order (Go's < on strings) with the facts that make it a
